@@ -2,7 +2,7 @@
   C10 — impl-model of indexing, slicing and element updates of jaq-json values.
 
   Mirrors, function by function,
-    /repo/jaq-json/src/num.rs : `PosUsize::wrap`  (`as_pos_usize` is the shared `Num.asPosUsize`)
+    /repo/jaq-json/src/num.rs : `PosUsize::wrap`, `Num::as_pos_usize` (= the shared `Num.asPosUsize`, with a fix switch)
     /repo/jaq-json/src/lib.rs : `skip_take`, `skip_take_bytes`, `skip_take_chars`, `bytes_splice`,
         `abs_bound`, `abs_index`, `Val::as_pos_usize`, `range_int`, `index_opt`, `ValT::index`,
         `ValT::range`, `ValT::values`, `ValT::key_values`, `ValT::map_values`, `ValT::map_index`,
@@ -29,6 +29,23 @@ abbrev PosUsize := Bool × Nat
 /-- `PosUsize::wrap`: `self.0.then_some(self.1).or_else(|| len.checked_sub(self.1))` -/
 def wrap (p : PosUsize) (len : Nat) : Option Nat :=
   if p.1 then some p.2 else if p.2 ≤ len then some (len - p.2) else none
+
+/-- SWITCH for finding `c10-bigint-bound`.  `false` = the unfixed `/repo` (`Num::as_pos_usize` fails on a
+big integer whose magnitude exceeds `usize::MAX`, so such a slice bound is refused as "not an
+integer").  `true` = the proposed repair `design/fixes/C10-bigint-slice-bound.diff` (the magnitude
+saturates at `usize::MAX`, so the bound is clipped).  The theorems are proved for both settings
+(no proof unfolds this constant); flip it when the fix is applied to `/repo`. -/
+def fixBigintBound : Bool := false
+
+def usizeMaxNat : Nat := 18446744073709551615
+
+/-- `Num::as_pos_usize` -/
+def numAsPosUsize (n : Num) : Option PosUsize :=
+  match n with
+  | .big i =>
+    if fixBigintBound then some (!(i < 0), min i.natAbs usizeMaxNat)   -- fixed: saturating
+    else Num.asPosUsize n
+  | n => Num.asPosUsize n
 
 /-- `abs_bound`: `i.map_or(default, |i| min(i.wrap(len).unwrap_or(0), len))` -/
 def absBound (i : Option PosUsize) (len dflt : Nat) : Nat :=
@@ -63,7 +80,7 @@ def charStarts (b : List UInt8) : List Nat := offsets 0 (Utf8.chars b)
 /-- the closure `byte_index` of `skip_take_chars`:
 `if pos { chars.nth(c).unwrap_or(b.len()) } else { chars.nth_back(c - 1).unwrap_or(0) }`.
 `c - 1` underflows for `PosUsize(false, 0)` (panic with overflow checks, `usize::MAX` → `0`
-without); `Num.asPosUsize` never produces that value (`asPosUsize_not_negzero`), the model takes
+without); `numAsPosUsize` never produces that value (`asPosUsize_not_negzero`), the model takes
 the release value. -/
 def byteIndex (b : List UInt8) (p : PosUsize) : Nat :=
   let starts := charStarts b
@@ -126,7 +143,7 @@ def Opt.fail (o : Opt) (x : Val) (e : Err) : ValR :=
 def asPosUsize (v : Val) : Except Err PosUsize :=
   match v with
   | .num n =>
-    match Num.asPosUsize n with
+    match numAsPosUsize n with
     | some p => .ok p
     | none => .error (.typ v tyInt)
   | _ => .error (.typ v tyInt)
@@ -187,12 +204,12 @@ def indexOpt (v idx : Val) : Except Err (Option Val) :=
   | .null, _ => .ok none
   | .bstr a, .num n =>
     if n.isInt then                                  -- `Num::Int(_) | Num::BigInt(_)`
-      .ok (((Num.asPosUsize n).bind fun p => absIndex p a.length).bind fun j =>
+      .ok (((numAsPosUsize n).bind fun p => absIndex p a.length).bind fun j =>
         a[j]?.map fun byte => .num (Num.ofInt (Int.ofNat byte.toNat)))
     else .error (.index v idx)
   | .arr a, .num n =>
     if n.isInt then
-      .ok (((Num.asPosUsize n).bind fun p => absIndex p a.length).bind fun j => a[j]?)
+      .ok (((numAsPosUsize n).bind fun p => absIndex p a.length).bind fun j => a[j]?)
     else .error (.index v idx)
   | .arr x, .arr y =>
     if y.isEmpty then .ok (some (.arr []))
